@@ -37,9 +37,10 @@ CONSTANTS
   InitClkEpochs,\* clock epoch at creation of the Pll (Pll.epoch starts at 0)
   MaxLen,       \* bound on the number of updates per history
   RawMags(_),   \* symbolic |a * offset| samples, given the clamp bound
-  \* switches: TRUE = what pll.go does, FALSE = repaired behaviour
-  StepUsesDoubleInv,  \* Step(Inv(Inv(off))): MinInt64 comes back as MinInt64+1
-  DurationWraps       \* timemath.Duration(ceil(dt)) overflows int64 when Sub saturated
+  \* switches: FALSE = what pll.go does (since the repairs 3830eca, 3f0dd14),
+  \* TRUE = the earlier behaviour, kept so that TLC can show what it breaks
+  StepUsesDoubleInv,  \* Step(Inv(Inv(off))): MinInt64 came back as MinInt64+1
+  DurationWraps       \* timemath.Duration(ceil(dt)) overflowed int64 when Sub saturated
 
 OffMin == -OffMax - 1
 NegDur == -1                          \* a negative time.Duration (overflowed conversion)
